@@ -761,6 +761,13 @@ func (c12) Exec(pj json.RawMessage, tape *simrt.Tape, keepLog bool) harness.RunO
 		if !run("dir", true) {
 			return out
 		}
+		// stub validation: one random system-call script on the simulated and
+		// on the real kernel; a disagreement is a bug of the stub (INFRA)
+		out.Probes["stub_validation_scripts"]++
+		if msg := validateKernel(planHash(pj, "kv")); msg != "" {
+			out.Infra = msg
+			return out
+		}
 	}
 	out.NonTrivial = out.Probes["readat_nonempty"] > 0
 	out.Sample = map[string]interface{}{"dirs": p.Dirs, "ops": opStrings(p.Ops), "systems": systems}
